@@ -33,7 +33,8 @@ RULE = ("Hypothesis draws, for each of the 11 tabulation targets (strata), a sma
         "definitions) and grid (3..8 rows); for that model every position k = 1..total of the failing function "
         "evaluation is enumerated (total measured by a fault-free dry run), plus k = total+1 (no fault). The "
         "potable route places a domain-leaving custom form in each function kind and runs write(), action_tabulate "
-        "and (sampled) the CLI. One evaluation = one (model, route, k) write attempt; non-trivial = k is an "
+        "and (sampled) the CLI. Strata large:<target> use tables above 1 MiB with k at 30/55/80/97/100 %. "
+        "One evaluation = one (model, route, k) write attempt; non-trivial = k is an "
         "interior position (1 < k < total) or the first/last evaluation of a function kind; distinct = distinct "
         "(case hash, k).")
 ASSUMPTIONS = [
